@@ -26,8 +26,23 @@ def encode_cp(cp, w):
     return [cp]
 
 
+JSON_SPECIAL_UNITS = [ord(c) for c in '"\\/bfnrtu[]{},:0189-+.eE '] + [0, 9, 10, 13, 0x1F]
+
+
+def alias_cp(rng):
+    """a scalar value that is NOT special but becomes a JSON special / whitespace / control unit when only its low
+    8 or 16 bits are looked at (wide builds): special + k*0x100 or special + k*0x10000"""
+    while True:
+        s0 = rng.choice(JSON_SPECIAL_UNITS)
+        cp = s0 + rng.choice([0x100, 0x200, 0x2000, 0xFF00, 0x10000, 0x20000, 0x100000, 0x100 * rng.randrange(1, 256)])
+        if cp < 0x110000 and not (0xD800 <= cp <= 0xDFFF):
+            return cp
+
+
 def gen_cp(rng):
     r = rng.random()
+    if r < 0.06:
+        return alias_cp(rng)
     if r < 0.55:
         return rng.choice([32, 33, 35, 47, 48, 65, 97, 122, 126, 127, 0x5B, 0x5D, 0x7B, 0x7D, 0x2C, 0x3A])
     if r < 0.7:
